@@ -19,6 +19,7 @@ VARIANTS = ("omp", "serial")
 CASE_TIMEOUT = 1200
 RULE = ("cases = zoo crystal x supercell x NAC (none|Wang|Gonze-Lee) x full/compact x build (OpenMP|serial); per case: run_qpoints over the full 2^3 product "
         "(eigenvectors x group velocities x dynamical matrices), band path from Gamma (with the path direction as NAC direction) with/without band connection, "
+        "a set of 10 requests (q-points with/without direction, band, mesh, single-q, Gamma with directions) issued in two orders on one object: same answers per request; "
         "four segments in one call (A->Gamma, Gamma->B, B->C, C->Gamma) vs each segment alone, vs the dynamical-matrix object (NAC direction = segment direction at Gamma) and D e = lambda e, "
         "Mesh and IterMesh, dynamical_matrix.run, get_frequencies*, get_dynamical_matrix_at_q; yaml/hdf5 of qpoints, band and mesh parsed back; "
         "non-trivial = more than one band and max|D|>0; distinct = (crystal, smat, pmat, nac, layout, build)")
@@ -246,6 +247,61 @@ def run_case(c):
                     bad("eigen_residual", "segment %d (connection=%s): reported eigenvectors/frequencies at q=%s do not satisfy D e = lambda e" % (si, conn, np.round(q, 4).tolist()),
                         band_connection=conn, joined_at_gamma=at_gamma)
                     break
+    # ---- order independence: the same set of requests issued in two different orders on the same object gives the same answers request by request
+    #      (helper objects - dynamical matrix, group velocity - are shared between the access paths and must not remember a previous request)
+    qz = np.array([[0.21, 0.13, 0.5], [0.0, 0.0, 0.5], [0.37, -0.11, 0.23]])
+    dirs = [[1.0, 0.0, 0.0], [0.0, 0.0, 1.0], [0.3, -0.2, 0.1]]
+
+    def _lam(fr):
+        return np.sort(lam_of(np.array(fr), factor), axis=-1)
+
+    def r_qp(we, wg, d):
+        def f():
+            ph.run_qpoints(qz, with_eigenvectors=we, with_group_velocities=wg, nac_q_direction=d)
+            dd = ph.get_qpoints_dict()
+            return {"lam": _lam(dd["frequencies"]), "gv": np.array(dd["group_velocities"]) if wg else None}
+        return f
+
+    def r_band(conn):
+        def f():
+            ph.run_band_structure([qz], with_eigenvectors=True, with_group_velocities=True, is_band_connection=conn)
+            bd = ph.get_band_structure_dict()
+            return {"lam": _lam(bd["frequencies"][0]), "gv": None if conn else np.array(bd["group_velocities"][0])}
+        return f
+
+    def r_mesh(sym, gv_):
+        def f():
+            ph.run_mesh([2, 2, 2], is_mesh_symmetry=sym, with_group_velocities=gv_, is_gamma_center=False)
+            md_ = ph.get_mesh_dict()
+            return {"lam": _lam(md_["frequencies"]), "gv": np.array(md_["group_velocities"]) if gv_ else None}
+        return f
+
+    def r_single():
+        return {"lam": _lam([ph.get_frequencies(q) for q in qz]), "gv": np.array([ph.get_group_velocity_at_q(q) for q in qz])}
+
+    def r_gamma(d):
+        def f():
+            ph.run_qpoints([[0, 0, 0]], nac_q_direction=d if c["nac"] else None, with_group_velocities=False)
+            return {"lam": _lam(ph.get_qpoints_dict()["frequencies"]), "gv": None}
+        return f
+
+    requests = [("qpoints", r_qp(False, True, None)), ("qpoints+dir0", r_qp(True, True, dirs[0])), ("qpoints+dir2", r_qp(False, True, dirs[2])), ("band", r_band(False)),
+                ("band+connection", r_band(True)), ("mesh sym gv", r_mesh(True, True)), ("mesh nosym", r_mesh(False, False)), ("single q", r_single),
+                ("gamma dir1", r_gamma(dirs[1])), ("gamma dir0", r_gamma(dirs[0]))]
+    first = {nm: fn() for nm, fn in requests}
+    order = rng.permutation(len(requests))
+    for k in list(order) + list(order[::-1]):
+        nm, fn = requests[k]
+        got = fn()
+        obs["n_order_requests"] = obs.get("n_order_requests", 0) + 1
+        e = np.abs(got["lam"] - first[nm]["lam"]).max()
+        if e > 1e-10 * lscale:
+            bad("request_order_dependent", "request '%s' gives eigenvalues different by %.3e when issued after other requests (order %s)" % (nm, e, [requests[j][0] for j in order]), request=nm)
+            break
+        if got["gv"] is not None and np.abs(got["gv"] - first[nm]["gv"]).max() > 1e-9 * max(np.abs(first[nm]["gv"]).max(), 1e-12):
+            bad("request_order_dependent", "request '%s' gives group velocities different by %.3e when issued after other requests (order %s)" % (
+                nm, np.abs(got["gv"] - first[nm]["gv"]).max(), [requests[j][0] for j in order]), request=nm)
+            break
     # ---- mesh (stored and iterated)
     mesh = [int(v) for v in rng.integers(2, 4, 3)]
     ph.run_mesh(mesh, with_eigenvectors=True, with_group_velocities=True, is_mesh_symmetry=False)
